@@ -253,7 +253,24 @@ def build_evt(case, thetas):
         U = haar(2 ** (len(benc) + ns), r)
         block = DuckEncoding.make(U, len(benc) + ns, benc + hq, benc)
     proc = _ctx["P"](0.0, list(case["proj"]), enc, aux, case["method"])
-    evt = _ctx["E"](block, proc, thetas)
+    if case.get("warm") and e["kind"] == "ising" and thetas:
+        # the objects are first used in another configuration (other couplings, other encoding method, other - and fewer/more - angles),
+        # then changed IN PLACE to the configuration of the case: nothing computed earlier may survive in them
+        w = case["warm"]
+        Jf, hf, gf = H.J, H.h, H.g
+        H.J, H.h, H.g = Jf * w["f"], hf * w["f"], gf * 0.5
+        block.method = getattr(qib.operator.BlockEncodingMethod, w["method"])
+        evt = _ctx["E"](block, proc, list(w["thetas"]))
+        for f in (evt.as_matrix, evt.as_circuit, block.as_matrix, lambda: block.inverse().as_matrix()):
+            try:
+                f()
+            except Exception:
+                pass
+        H.J, H.h, H.g = Jf, hf, gf
+        block.method = getattr(qib.operator.BlockEncodingMethod, e["method"])
+        evt.set_theta_seq(thetas)
+    else:
+        evt = _ctx["E"](block, proc, thetas)
     fields = [fF] + ([fH] if fH is not None else [])
     return evt, block, fields, {"ns": ns, "fF": fF}
 
@@ -654,6 +671,12 @@ def gen_cases(tier, rng):
                     th = angle_seq(rng, L)
                     yield evt_case("evt.matrix", th, enc, method)
                     yield evt_case("evt.circuit", th, enc, method, placement=rng.choice(["test", "canonical", "random"]), rng=rng)
+                    # the same after a first use of the objects in another configuration
+                    for op in ("evt.matrix", "evt.circuit"):
+                        c = evt_case(op, th, enc, method, placement="test")
+                        c["warm"] = {"f": rng.choice([0.5, -0.5, 0.25]), "method": rng.choice(["Wx", "Wxi", "R"]),
+                                     "thetas": angle_seq(rng, rng.choice([1, 2, 3, 4, 5]))}
+                        yield c
         for method in METHODS:
             for m in (1, 2, 3):
                 for _ in range(reps):
